@@ -3,6 +3,7 @@ import Driver.Bastion
 import Driver.Conc
 import Driver.Feeder
 import Driver.Dist
+import Driver.Config
 open Std
 namespace Drv
 
@@ -42,6 +43,9 @@ def handle (st : St) (n : Nat) (line : String) : Result := Id.run do
   | "H" :: _ => return handleH st n toks
   | "FD" :: _ => return handleFD st n toks
   | "DS" :: _ => return handleDS st n toks
+  | "CF" :: _ => return handleCF st n toks
+  | "CFM" :: _ => return handleCFM st n toks
+  | "CA" :: _ => return handleCA st n toks
   | "LR" :: sid :: _ => return { st := { st with lreqs := st.lreqs.push (sid, toks) }, out := [] }
   | "LIN" :: sid :: _ =>
     let mine := st.lreqs.filter (fun p => p.1 == sid)
